@@ -43,6 +43,7 @@ def _(self, minimum: IntOrMin, maximum: IntOrMax, has_extension_marker: Bool):
 
 @contract("Boolean.encode", props=["C06", "C01"])
 def _(self, data: Bool, encoder: Obj("Encoder")):
+    refines("Type.encode")
     assigns(encoder)
     ensures(encoder.number_of_bits == old(encoder.number_of_bits) + 8)
     ensures(encoder.value == 256 * old(encoder.value) + (255 if data else 0))       # X.696 9
@@ -92,6 +93,8 @@ def _(self, data: Val, encoder: Obj("Encoder")):
     raises(UnicodeEncodeError)
     assigns(encoder)
     ensures(encoder.number_of_bits >= old(encoder.number_of_bits))
+    # X.696: every encoding is a whole number of octets
+    ensures(implies(old(encoder.number_of_bits) % 8 == 0, encoder.number_of_bits % 8 == 0))
 
 
 @contract("MembersType.decode_additions", props=["C07", "C06", "C16", "C08"], for_class="any")
@@ -126,9 +129,19 @@ def _(self, data: Map('str', Val), encoder: Obj("Encoder")) -> Bool:
                    (number_of_additions + number_of_unused_bits) % 8 == 0,
                    number_of_additions == len(self.additions)])
     local(addition_encoders=ObjSeq("Encoder"))
-    loop(0, invariant=[presence_bits >= 0, presence_bits < pow2(_i0), _i0 <= len(self.additions)],
+    ensures(encoder.number_of_bits >= old(encoder.number_of_bits))
+    ensures(implies(not result, encoder.number_of_bits == old(encoder.number_of_bits) and encoder.value == old(encoder.value)))
+    # whole octets in, whole octets out; the encoders collected in the first loop are not tracked individually, hence:
+    at_stmt("encoder += addition_encoder",
+            assume=("each collected addition encoder holds a whole number of octets (it was filled by one encode_member "
+                    "call on a fresh Encoder, see the abstract Type.encode clause; the list itself is not tracked)",
+                    addition_encoder.number_of_bits % 8 == 0))
+    ensures(implies(old(encoder.number_of_bits) % 8 == 0, encoder.number_of_bits % 8 == 0))
+    loop(0, invariant=[presence_bits >= 0, presence_bits < pow2(_i0), _i0 <= len(self.additions),
+                       encoder.number_of_bits == old(encoder.number_of_bits) and encoder.value == old(encoder.value)],
          use=[pow2_mono(_i0 + 1, len(self.additions))])
-    loop(1, invariant=[encoder.number_of_bits >= 0])
+    loop(1, invariant=[encoder.number_of_bits >= old(encoder.number_of_bits),
+                       implies(old(encoder.number_of_bits) % 8 == 0, encoder.number_of_bits % 8 == 0)])
 
 
 fields("Choice", name_to_root_member=Map('str', Obj("Type")), name_to_addition=Map('str', Obj("Type")),
@@ -138,6 +151,7 @@ formatting("Choice.format_tags", "Choice.format_names", "Enumerated.format_names
 
 @contract("Choice.encode", props=["C06", "C12", "C01"])
 def _(self, data: Tup(Str, Val), encoder: Obj("Encoder")):
+    refines("Type.encode")
     # X.696 20: tag octets of the alternative, then its encoding; an extension alternative is length prefixed.
     # An unknown alternative is an encode error; an error inside the alternative is located at it (C12)
     requires(implies(data[0] in self.name_to_root_member, self.name_to_root_member[data[0]].tag is not None))
@@ -177,6 +191,7 @@ def _(self, decoder: Obj("Decoder")) -> Tup(Opt(Str), Opt(Val)):
 
 @contract("Enumerated.encode", props=["C06", "C12", "C01"])
 def _(self, data: Val, encoder: Obj("Encoder")):
+    refines("Type.encode")
     # X.696 11: values 0..127 in one octet; otherwise the long form (length octet with the top bit set + two's complement)
     requires(implies(data in self.data_to_value, -pow2(1000) < self.data_to_value[data] and self.data_to_value[data] < pow2(1000)))
     raises_iff(EncodeError, data not in self.data_to_value, ensures=[len(exc.location) == 0])
@@ -209,6 +224,7 @@ fixup("Integer", "self.length = [None, 1, 2, 4, 8][abs(self.length or 0) % 5]\ns
 
 @contract("Integer.encode", props=["C06", "C01", "C12"])
 def _(self, data: Int, encoder: Obj("Encoder")):
+    refines("Type.encode")
     # X.696 10: a fixed-size form is exactly `length` octets holding the value in big-endian (two's complement when
     # signed); otherwise a length-prefixed form, unsigned only without a negative lower bound
     # the value is inside the range the fixed-size form was chosen for: established by check_constraints (C11)
@@ -251,6 +267,7 @@ def _(self, member: Obj("Type"), data: Map('str', Val), encoder: Obj("Encoder"),
     assigns(encoder)
     ensures(member.name in data or member.optional or member.default is not None)
     ensures(encoder.number_of_bits >= old(encoder.number_of_bits))
+    ensures(implies(old(encoder.number_of_bits) % 8 == 0, encoder.number_of_bits % 8 == 0))
     ensures(implies(member.name not in data,
                     encoder.number_of_bits == old(encoder.number_of_bits) and encoder.value == old(encoder.value)))
     ensures(implies(member.name in data and member.default is not None and not encode_default
@@ -270,15 +287,16 @@ def _(self, data: Map('str', Val), encoder: Obj("Encoder")):
     at_stmt("@loop1", set=dict(g_pre=encoder.number_of_bits))
     ensures(g_pre % 8 == 0 and g_pre >= old(encoder.number_of_bits) + len(self.optionals)
             and g_pre < old(encoder.number_of_bits) + len(self.optionals) + 8)
-    ensures(encoder.number_of_bits >= g_pre)
+    ensures(encoder.number_of_bits >= g_pre and encoder.number_of_bits % 8 == 0)
     loop(0, invariant=[encoder.number_of_bits == old(encoder.number_of_bits) + _i0, _i0 <= len(self.optionals)])
-    loop(1, invariant=[encoder.number_of_bits >= g_pre, g_pre % 8 == 0,
+    loop(1, invariant=[encoder.number_of_bits >= g_pre, g_pre % 8 == 0, encoder.number_of_bits % 8 == 0,
                        g_pre >= old(encoder.number_of_bits) + len(self.optionals),
                        g_pre < old(encoder.number_of_bits) + len(self.optionals) + 8])
 
 
 @contract("OctetString.encode", props=["C06", "C01"])
 def _(self, data: Bytes, encoder: Obj("Encoder")):
+    refines("Type.encode")
     # X.696 14: a fixed size is just the octets; otherwise a length determinant, then the octets
     requires(self.number_of_bytes is None or len(data) == self.number_of_bytes)      # established by check_constraints (C11)
     raises(EncodeError, when=self.number_of_bytes is None and need8(len(data)) > 127)
@@ -293,6 +311,7 @@ def _(self, data: Bytes, encoder: Obj("Encoder")):
 
 @contract("BitString.encode", props=["C06", "C01"])
 def _(self, data: Tup(Bytes, Nat), encoder: Obj("Encoder")):
+    refines("Type.encode")
     # X.696 13: a fixed size: ceil(n / 8) octets, unused bits zero; otherwise length determinant, an octet with the
     # number of unused bits, then the octets
     requires(data[1] <= 8 * len(data[0]))
@@ -305,3 +324,32 @@ def _(self, data: Tup(Bytes, Nat), encoder: Obj("Encoder")):
                     encoder.number_of_bits == old(encoder.number_of_bits) + 16 + 8 * ((data[1] + 7) // 8)))
     # (that the unused bits of the last octet are cleared is proved on ber.BitString.encode_content, the same masking
     # expression; here it needs sequence reasoning about data[:n] + [last] the solver did not do in time)
+
+
+@contract("Encoder.as_bytearray", props=["C06", "C01"])
+def _(self) -> ByteArray:
+    # the octets of a whole-octet bit string (assumed builtin contract: hex80_axiom)
+    requires(self.number_of_bits % 8 == 0)
+    use(hex80_axiom(self.value, self.number_of_bits // 8))
+    ensures(len(result) == self.number_of_bits // 8 and be_val(list(result)) == self.value)
+
+
+fields("CompiledType", _type=Obj("Type"))
+
+
+@contract("CompiledType.encode", props=["C06", "C12", "C18", "C01"])
+def _(self, data: Val) -> ByteArray:
+    # a fresh Encoder per call (C18); an encode error carries the path from the top-level type (C12); the result is a
+    # whole number of octets (X.696)
+    raises(EncodeError, ensures=[located_at(exc, self._type)])
+    raises(OverflowError)
+    raises(UnicodeEncodeError)
+
+
+@contract("MembersType.encode", props=["C06", "C01", "C12"], for_class="any")
+def _(self, data: Map('str', Val), encoder: Obj("Encoder")):
+    refines("Type.encode")
+    # X.696 16: extension bit (when extensible), preamble padded to an octet, root components, then the additions;
+    # the result is a whole number of octets whatever the position it started at
+    requires(self.additions is None or len(self.additions) < 1000)
+    ensures(encoder.number_of_bits % 8 == 0)
